@@ -31,32 +31,33 @@ type dClient struct {
 	name   string
 	role   string // split | commit | cancel
 	split  string
-	crash  int  // crash at this mutation (0: never)
-	before bool // crash before the write lands
+	crash  int    // crash at this mutation (0: never)
+	before bool   // crash before the write lands
 	after  string // start only after this client has ended ("" = from the beginning)
+	batch  int    // listing page size used by a commit (0: default)
 }
 
 type dScenario struct {
-	label   string
-	setup   []dClient // run to completion, one after the other, before the race
-	racers  []dClient
-	policy  string // "seq" | "window:<k>" | "random"
-	seed    int64
-	then    []dClient // run sequentially after the race (retries, late splits)
+	label  string
+	setup  []dClient // run to completion, one after the other, before the race
+	racers []dClient
+	policy string // "seq" | "window:<k>" | "random"
+	seed   int64
+	then   []dClient // run sequentially after the race (retries, late splits)
 }
 
 type dRun struct {
-	e       *metaEnv
-	repo    string
-	did     string
-	gate    *store.Gate
-	events  []interface{}
-	emitted int
-	genOf   map[string]string // runner content key -> gen
-	runKey  map[string][2]string
+	e        *metaEnv
+	repo     string
+	did      string
+	gate     *store.Gate
+	events   []interface{}
+	emitted  int
+	genOf    map[string]string // runner content key -> gen
+	runKey   map[string][2]string
 	bundleBy map[string]string
-	sawDone map[string]bool
-	ends    []map[string]interface{}
+	sawDone  map[string]bool
+	ends     []map[string]interface{}
 }
 
 func (d *dRun) stores(name string, gated bool, c dClient) (context2.Stores, *store.Ctl) {
@@ -203,7 +204,11 @@ func (d *dRun) start(c dClient, gated bool) chan map[string]interface{} {
 				core.DiamondDescriptor(model.NewDiamondDescriptor(model.DiamondID(d.did), model.DiamondMode(model.EnableConflicts))),
 				core.DiamondMessage("commit"), core.DiamondLogger(zap.NewNop()))
 			dm.BundleDescriptor.LeafSize = uint32(d.e.lambda)
-			err := dm.Commit()
+			var copts []core.Option
+			if c.batch > 0 {
+				copts = append(copts, core.BatchSize(c.batch))
+			}
+			err := dm.Commit(copts...)
 			end["ok"] = err == nil
 			end["bundle"] = dm.BundleID
 		case "cancel":
@@ -404,6 +409,23 @@ func diamondScenarios(seed int64, thorough bool) []dScenario {
 		out = append(out, dScenario{label: "random-two-commits", setup: []dClient{u1, u3}, racers: []dClient{k1, k2}, policy: "random", seed: s})
 		out = append(out, dScenario{label: "random-all", racers: []dClient{u1, u2, u3, k1, x1}, policy: "random", seed: s, then: []dClient{k2}})
 		out = append(out, dScenario{label: "random-splits-commit", setup: []dClient{u1}, racers: []dClient{u2, u3, k1, k2}, policy: "random", seed: s})
+	}
+	// commits listing the splits with small pages (done / running markers of a split on different pages)
+	for b := 1; b <= 9; b++ {
+		kb := k1
+		kb.batch = b
+		out = append(out, dScenario{label: "commit-small-pages", setup: []dClient{u1, u3, dClient{name: "u4", role: "split", split: "s3"}, kb}, then: []dClient{k2}})
+		ur := u1
+		ur.crash, ur.before = 3, true // first run of s1 leaves its file list and a running marker
+		out = append(out, dScenario{label: "commit-small-pages-rerun", setup: []dClient{ur, u2, u3, kb}})
+	}
+	// a split whose first run did not complete is rerun after the diamond is terminated
+	for _, term := range []dClient{k1, x1} {
+		for m := 2; m <= 3; m++ {
+			uc := u1
+			uc.crash, uc.before = m, true
+			out = append(out, dScenario{label: "rerun-after-terminal", setup: []dClient{uc, u3, term}, then: []dClient{u2, dClient{name: "u5", role: "split", split: "s9"}}})
+		}
 	}
 	// crashes: the committer (or a split run) dies at each of its writes, then the operation is retried
 	for m := 1; m <= 4; m++ {
